@@ -115,7 +115,9 @@ def run(ck):
             fns.append(f)
     scanned = 0
     g1 = g2 = g3 = 0
+    g15 = []
     seen = set()
+    ck.clause("C07.G15", "the cross-correlation of a reference window is computed only for a non-empty window vector")
     from ..norm import is_new_helper
 
     def read_through_callers(f) -> bool:
@@ -207,6 +209,23 @@ def run(ck):
                                                  found="no .empty / length guard on the path",
                                                  required="`.empty` (or len) guard dominating .tolist()",
                                                  path=pa.describe())
+                    # ---------------- G15: cross-correlation of a *window* of the reference
+                    if st[0] == "app" and st[1].endswith("__getCorrelation") or (st[0] == "call" and st[1].endswith("signal.correlate")):
+                        args15 = [v for _, v in st[3]] if st[0] == "app" else list(st[2])
+                        win = args15[0] if args15 else None
+                        if win is not None and win[0] == "app" and win[1].endswith("OpticalMap.getSequence") \
+                                and dict(win[3]).get("start") not in (None, C(0)):
+                            k15 = ("G15", fn.qualname, T.show(win)[:200])
+                            if k15 not in seen:
+                                seen.add(k15)
+                                g15.append(fn)
+                                known_nonempty = _nonempty_ext(win, ne) is True or f2.get(win) is True
+                                ck.judge(known_nonempty, "C07.G15", short(fn) + ":window-correlation", where(fn, node),
+                                         "the vector of a reference *window* is correlated only when it is not empty: vectorisation "
+                                         "stops at the last label, so a window that starts behind the last label of the reference "
+                                         "(a seed in its unlabelled tail) gives an empty vector and scipy's correlate raises IndexError",
+                                         found="correlate(" + T.show(win)[:140] + ", ...) with no emptiness guard on the path",
+                                         required="`if len(referenceSequence) == 0: <no peaks>` (or an equivalent guard) before correlate")
                     # ---------------- G3
                     idiom = None
                     arg = None
@@ -263,6 +282,7 @@ def run(ck):
         ck.ok("C07.G2", short(ra), ra.where, "no DataFrame.apply(...).tolist() chain on any return path "
               f"({len(rets)} paths): an empty frame cannot reach tolist()")
     ck.floor("C07.G3 identity-free reductions judged", g3, 6)
+    ck.floor("C07.G15 windowed cross-correlations judged", len(g15), 1)
 
     # ---- positive reference instances for G3: these four carry their identity today
     _g3_reference_instances(ck)
